@@ -865,6 +865,7 @@ Theorem attach_and_travel code message ds md :
     with_error_details_vec_c code message ds md = Ok st /\
     to_header_map st = Some m /\ from_header_map m = Some st' /\
     st_code st' = code /\ st_msg st' = message /\ st_details st' = st_details st /\
+    st_md st = md /\
     (forall k, hm_get_all (st_md st') k = hm_get_all (sanitize md) k) /\
     recovers_c st' ds /\
     dec_status_c (st_details st') = Ok (mkPbStatus (Z.of_N code) message conv) /\
@@ -882,7 +883,7 @@ Proof.
   { now rewrite Emd. }
   exists st, m, st', conv. destruct (Hdec st' Hd') as [Dps Rec].
   split; [exact Est|]. split; [exact Hm|]. split; [exact Hback|].
-  split; [congruence|]. split; [congruence|]. split; [exact Hd'|].
+  split; [congruence|]. split; [congruence|]. split; [exact Hd'|]. split; [exact Emd|].
   split; [intros k; rewrite Hmd', Emd; reflexivity|]. split; [exact Rec|]. split; [exact Dps|].
   clear - Fconv. induction Fconv as [|d a ds conv (U & _) _ IH]; [reflexivity|]. cbn [map]. now rewrite U, IH.
 Qed.
@@ -902,7 +903,7 @@ Theorem details_vec_roundtrip code message ds md :
 Proof.
   intros Hc Hu Hb Hds Hfit Hmd.
   destruct (attach_and_travel code message ds md Hc Hu Hb Hds Hfit Hmd)
-    as (st & m & st' & conv & E1 & E2 & E3 & E4 & E5 & _ & _ & (R1 & R2 & R3 & R4 & R5) & _).
+    as (st & m & st' & conv & E1 & E2 & E3 & E4 & E5 & _ & _ & _ & (R1 & R2 & R3 & R4 & R5) & _).
   exists st, m, st'. repeat (split; [assumption|]). exact R5.
 Qed.
 
@@ -942,10 +943,33 @@ Theorem embedded_status_matches_outer code message ds md :
 Proof.
   intros Hc Hu Hb Hds Hfit Hmd.
   destruct (attach_and_travel code message ds md Hc Hu Hb Hds Hfit Hmd)
-    as (st & m & st' & conv & E1 & E2 & E3 & E4 & E5 & _ & _ & _ & D & U).
+    as (st & m & st' & conv & E1 & E2 & E3 & E4 & E5 & _ & _ & _ & _ & D & U).
   exists st, m, st', (mkPbStatus (Z.of_N code) message conv). cbn [ps_code ps_message ps_details].
   repeat (split; [assumption|]). split; [now rewrite E4|]. split; [now rewrite E5|exact U].
 Qed.
+
+(* C20, metadata: the user metadata given to with_error_details[_vec]_and_metadata is kept on the
+   status, and after the header encoding it arrives, name by name and in order, except for the
+   names gRPC reserves (which Status::add_header never writes from user metadata) *)
+Theorem metadata_kept code message ds md :
+  is_code code = true -> utf8_valid message = true -> bytes_ok message = true ->
+  Forall detail_ok ds -> fits_c code message ds ->
+  hm_get_all md hdr_grpc_status_details = [] ->
+  exists st m st',
+    with_error_details_vec_c code message ds md = Ok st /\ st_md st = md /\
+    to_header_map st = Some m /\ from_header_map m = Some st' /\
+    forall k, hm_get_all (st_md st') k =
+              if existsb (fun k' => bytes_eqb k' k) reserved_headers then [] else hm_get_all md k.
+Proof.
+  intros Hc Hu Hb Hds Hfit Hmd.
+  destruct (attach_and_travel code message ds md Hc Hu Hb Hds Hfit Hmd)
+    as (st & m & st' & conv & E1 & E2 & E3 & _ & _ & _ & Emd & Hk & _).
+  exists st, m, st'. repeat (split; [assumption|]). intros k. rewrite Hk. apply get_all_sanitize.
+Qed.
+(* the set form is the list form of the pushed details: same statement *)
+Lemma with_error_details_is_vec code message ed md :
+  with_error_details_c code message ed md = with_error_details_vec_c code message (pushed ed) md.
+Proof. reflexivity. Qed.
 
 (* C20, decode side: whatever the details bytes are, no getter panics (nor does the model run out of
    fuel); the check_* functions answer Ok or Err, the get_* functions answer the same value or the
